@@ -15,12 +15,12 @@ FUNCTIONS = ['yalafi.shell.proofreader.run_proofreader_options',
              'yalafi.shell.utils.map_match_position', 'yalafi.shell.gentext.output_text_report',
              'yalafi.shell.genjson.output_json', 'yalafi.shell.genxml.output_xml_report',
              'yalafi.shell.genhtml.generate_html', 'yalafi.shell.server.Handler.create_message']
-RULE = ('shape: symbolic choice of one field of a valid answer and of the kind of value put '
+RULE = ('modes plain/json/xml/xml-b/html/html with --link/server; shape: symbolic choice of one field of a valid answer and of the kind of value put '
         'there (absent/int/str/list/dict/null/bool/float), symbolic unbounded offset and length, '
         'context offset/length in -2..50; trunc: symbolic cut point of the answer bytes through '
         'the real decoder; outcome per output mode must be SystemExit(1) after a diagnostic or a '
         'report with every location inside the file.')
-BOUNDS = {'quick': '3 documents x 20 fields x 9 kinds; all integers offset/length; every byte '
+BOUNDS = {'quick': '3 documents x 20 fields x 13 kinds; all integers offset/length; every byte '
                    'truncation of 2 answers + 14 wrong-shape answers',
           'thorough': 'same + two simultaneously malformed matches'}
 OUTSIDE = 'the HTTP transport; answers larger than two matches; context offsets beyond 50 ' \
@@ -40,13 +40,15 @@ FIELDS = ['offset', 'length', 'message', 'replacements', 'replacements.0', 'repl
           'rule.subId', 'rule.category', 'rule.category.name', 'rule.urls', 'rule.urls.0',
           'rule.urls.0.value', 'MATCH', 'NONE']
 KINDS = ['absent', 'int', 'str', 'list', 'dict', 'none', 'bool', 'float', 'float_int', 'str_nl',
-         'str_empty', 'str_surrogate']
+         'str_empty', 'str_surrogate', 'str_br']
 
 
 def value_of(kind):
     return {'int': 7, 'str': 'x<y>&"z', 'list': [], 'dict': {}, 'none': None, 'bool': True,
             'float': 1.5, 'float_int': 2.0, 'str_nl': 'line one\nline "two"\t<b>', 'str_empty': '',
-            'str_surrogate': 'lone \ud800 surrogate'}[kind]
+            'str_surrogate': 'lone \ud800 surrogate',
+            # the report generator's own line separator inside a value
+            'str_br': 'one<br>\ntwo<br>\n'}[kind]
 
 
 def base_match(o, l, co, cl):
@@ -91,7 +93,7 @@ def infile(tex, lin0, col0):
 def run_modes(env, tex, lang, answer_matches, via_bytes=True):
     """all output modes on one answer; returns None or a violation message"""
     cache = {}
-    for mode in ('plain', 'json', 'xml', 'xml-b', 'html', 'server'):
+    for mode in ('plain', 'json', 'xml', 'xml-b', 'html', 'html-link', 'server'):
         err = io.StringIO()
         try:
             with contextlib.redirect_stderr(err):
@@ -199,8 +201,14 @@ def _one_mode2(env, tex, lang, ms, mode, cache):
                 if 0 <= y < len(lines) else -1
             if not (0 <= y < len(lines) - (1 if tex.endswith('\n') else 0) and 0 <= x <= lim):
                 return 'reports from (%d,%d), outside the file' % (y, x)
-    elif mode == 'html':
-        t, a, body, n = env.genhtml.generate_html(tex, cm_tot, matches, 'f.tex')
+    elif mode in ('html', 'html-link'):
+        # html-link: option --link (the rule's URL becomes an attribute value of the report)
+        saved_link = env.cmdline.link
+        env.cmdline.link = mode == 'html-link'
+        try:
+            t, a, body, n = env.genhtml.generate_html(tex, cm_tot, matches, 'f.tex')
+        finally:
+            env.cmdline.link = saved_link
         body.encode('utf-8')          # the shell writes the report to a UTF-8 stream
         nl = tex.count('\n') + (0 if tex.endswith('\n') else 1)
         for num in re.findall(r'valign="top">(\d+)&nbsp;', body):
